@@ -296,3 +296,19 @@ _t_shared_structs = tasks
 def tasks(tier):
     from specs.C08 import shared_struct_tasks
     return _t_shared_structs(tier) + shared_struct_tasks('C13.g.', ['LendingPoolConfigureBank', 'LendingPoolConfigureBankEmode', 'LendingPoolCloneEmode', 'MarginfiGroupConfigure', 'PropagateStakedSettings', 'EditStakedSettings'])
+
+
+
+# ---------------------------------------------------------------- C13.e: the killed-by-bankruptcy state is terminal on BOTH configuration paths (shared with C07.e)
+def t_killed_terminal(world):
+    import specs.C07 as C07
+    a = C07.t_configure_terminal(world); a[0].oid = 'C13.e.configure'
+    b = C07.t_configure_frozen_terminal(world, 'C13.e.frozen')
+    return a + b
+
+
+_t_kt = tasks
+def tasks(tier):
+    return _t_kt(tier) + [('killed_terminal', t_killed_terminal)]
+from specs.C07 import replay_configure as _rc13
+REPLAYERS['configure'] = _rc13
